@@ -111,7 +111,7 @@ def gen_session(rng, tier='quick', exact=None, alpha_kinds=('fixed', 'single', '
             else:
                 e = None
             ents.append([a, e])
-        universe = ['dynamic', ents] + ([rng.choice(['nat', 'tz', 'nat+tz', 'pydt', 'tz+pydt'])] if rng.random() < 0.5 else [])     # missing entries as None or as NaT
+        universe = ['dynamic', ents] + ([rng.choice(['nat', 'tz', 'nat+tz', 'pydt', 'tz+pydt', 'latemap', 'nat+latemap'])] if rng.random() < 0.55 else [])     # missing entries as None or as NaT
     # alpha
     lookbacks = None
     if kind == 'fixed':
@@ -160,6 +160,12 @@ def gen_session(rng, tier='quick', exact=None, alpha_kinds=('fixed', 'single', '
     rows = gen_prices(rng, assets, times, exact, data_start)
     cfg = {'start': start, 'end': end, 'universe': universe, 'alpha': alpha, 'cash': cash, 'rebal': rebal,
            'long_only': long_only, 'param': param, 'fee': fee, 'burn': burn, 'lookbacks': lookbacks}
+    if kind == 'fixed' and rng.random() < 0.35:
+        cfg['alpha_universe'] = True
+    if rng.random() < 0.2:
+        cfg['extra_portfolio'] = True
+    if lookbacks is not None and rng.random() < 0.3:
+        cfg['late_signals'] = True
     case = {'cfg': cfg, 'market': {'kind': 'table', 'rows': rows}, 'exact': exact, 'assets': assets,
             'stream': kind + ':' + rebal[0] + (':exact' if exact else ':float')}
     if collide or rng.random() < 0.1:
